@@ -150,15 +150,18 @@ static int e_priv_token[2];
 static const char *e_forced_outcome;
 /* What a comparison callback returns.  The library may rely on the sign only, so the magnitude is made
  * uninformative on purpose, by a rule that is a pure function of the pair (deterministic under re-execution
- * and antisymmetric): a bare +-1, a value that shrinks as the operands move apart, or the plain difference. */
+ * and antisymmetric): a bare +-1, a value that shrinks as the operands move apart, the plain difference, or
+ * values near the ends of the int range. */
 static int e_cmp3(long a, long b)
 {
     long d = a - b, m = d > 0 ? d : -d; int s = d > 0 ? 1 : -1;
     if (d == 0) return 0;
-    switch ((unsigned long)(a + b) % 3) {
+    switch ((unsigned long)(a + b) % 5) {
     case 0: return s;
     case 1: return s * (int)(1000 / m + 1);
-    default: return s * (int)(m > 30000 ? 30000 : m);
+    case 2: return s * (int)(m > 30000 ? 30000 : m);
+    case 3: return s * (0x40000000 + (int)(m & 0xffff));      /* any int of the right sign: also ones whose product overflows */
+    default: return s * 0x7fffffff;
     }
 }
 /* what a visit callback returns when it asks to stop at its k-th call: any non-zero value must stop the walk
